@@ -13,7 +13,7 @@ from .explorer import EX, Unsupported, explore_iter
 
 PID = "C14"
 _G = {}
-CB = ("ok", "raises", "slow", "very_slow", "closes")
+CB = ("ok", "raises", "slow", "very_slow", "closes", "rx_closes")
 SESSION_END = 9.0
 GRACE = 11.0
 
@@ -52,6 +52,8 @@ def scenario(R, N, kind, cb_kind, close_step, call_connect_after=True):
             if tr["close_returned"] is not None:
                 tr["cb_after_close"] += 1
             tr["got"].append(m.source)
+            if cb_kind == "rx_closes" and tr["close_called"] is None:
+                await do_close()                          # the application closes the client from inside its receive callback
             await asyncio.sleep(0.4)                      # slow receive callback
 
         async def st(s):
@@ -70,8 +72,10 @@ def scenario(R, N, kind, cb_kind, close_step, call_connect_after=True):
 
         async def do_close():
             tr["close_called"] = loop.time()
-            await c.close()
-            tr["close_returned"] = loop.time()
+            try:
+                await c.close()
+            finally:
+                tr["close_returned"] = loop.time()     # close() may end by cancellation when it is called from one of the client's own tasks
 
         def on_step(lp):
             tr["steps"] += 1
@@ -163,10 +167,10 @@ def _worker(job):
         rep.error("%r: measuring run failed: %r" % (job, res))
         return dict(violations=[], inconclusive=[], errors=rep.harness_errors, samples=[], stats=explorer.STATS, n=0)
     pr = judge(res, res, env, cb_kind)
-    if cb_kind == "closes":
-        # the status callback itself closes the client on CONNECTED: a single run, no injection
+    if cb_kind in ("closes", "rx_closes"):
+        # the status callback itself closes the client on CONNECTED / the receive callback closes it on the first message: a single run, no injection
         if pr:
-            rep.violation({"kind": "close", "client": kind, "what": pr[0].split(" at ")[0][:40]}, "%s client, status callback calling close(): %s" % (kind, "; ".join(pr[:2])),
+            rep.violation({"kind": "close", "client": kind, "what": pr[0].split(" at ")[0][:40]}, "%s client, %s callback calling close(): %s" % (kind, "status" if cb_kind == "closes" else "receive", "; ".join(pr[:2])),
                           {"kind": "close", "client": kind, "cb": cb_kind, "step": None})
         rep.sample({"client": kind, "status_callback": cb_kind, "notifications": res["states"]})
         return dict(violations=rep.violations, inconclusive=[], errors=rep.harness_errors, samples=rep.samples, stats=explorer.STATS, n=1)
